@@ -1,10 +1,30 @@
 /-
-  Driver op for the subscriber fan-out:
-    fan run <n> <op;op;…>    ops: f<flags>:<chan>.<val>,<chan>.<val>… | s<ch> | u<q> | e<bits>
-  output: per queue `q<id>=<group>/<group>…` (group = vals joined by `.`) joined by ` `, then `ovf=<n>` and
-  `subs=<per channel ids joined by . ; channels joined by ,>`, `errs=<indices of raising ops>`
+  Driver ops for the subscriber fan-out and the stream-frame queue (`Fanout.Sys`):
+
+    fan sys  <initbits> <ev;ev;…>                   abstract frames (samples = `<chan>.<tag>`)
+    fan wire <layout> <user> <initbits> <ev;ev;…>   frames as STREAM payloads (hex), decoded by the C04 decoder
+    fan run  <n> <op;op;…>                          (legacy corpus form) = `fan sys 0…0` with every frame processed at once
+
+  events (`-` = none):
+    f<flags>:<chan>.<tag>,<chan>.<tag>…   a stream frame arrives on `_q_stream`            (sys / run)
+    x                                      a stream frame the decoder cannot unpack arrives  (sys / run)
+    w<hex>                                 a stream frame with this payload arrives          (wire; `w-` = empty payload)
+    i                                      the stream thread runs until it blocks (drains `_q_stream`, or dies)
+    s<ch> | n<k> | u<q> | e<bits>          stream_sub(ch) | stream_sub(-(k+1)) | stream_unsub(queue #q) | enable vector := bits
+    S | P                                  stream_start() | stream_stop()
+    I | T                                  (recorded traces, harness sessions) ONE loop iteration of the stream thread |
+                                           stream_stop() without the schedule rule below
+  SCHEDULE (the one the harness enforces under the virtual-time runtime, harness/props/C08.py): the application
+  thread runs without interruption except in `i` and `P`; in `P` a stream thread that has run before (it is
+  parked in `_q_stream.get`) finishes that `get` — i.e. performs ONE more loop iteration — before it sees the stop
+  flag, a thread that has never run sees the flag at once.
+  output: `ok q<id>=<group>/<group>… … ovf=<n> subs=<per channel ids joined by . ; channels joined by ,>
+           dead=<0|1: started, but the stream thread has ended> started=<0|1> qlen=<frames waiting>
+           errs=<indices of raising calls>`
+  (sys/run: group = tags joined by `.`; wire: group = samples `[v;v],[m;m]` joined by `|`)
 -/
 import NxsModel.Driver.Codec
+import NxsModel.Driver.Stream
 import NxsModel.Fanout
 namespace Nxs.Driver
 open Nxs Nxs.Fanout
@@ -14,36 +34,109 @@ def smpArg (s : String) : Option Smp :=
   | [c, v] => do pure ⟨← c.toNat?, ← v.toNat?⟩
   | _ => none
 
-def fanOpArg (s : String) : Option Op :=
-  if s.startsWith "f" then
-    match (s.drop 1).toString.splitOn ":" with
-    | [fl, ss] => do
-      let fl ← fl.toNat?
-      let l ← if ss = "" then some [] else (ss.splitOn ",").mapM smpArg
-      pure (.frame fl l)
-    | _ => none
-  else if s.startsWith "s" then (s.drop 1).toString.toNat?.map .sub
-  else if s.startsWith "u" then (s.drop 1).toString.toNat?.map .unsub
-  else if s.startsWith "e" then (bitsArg (s.drop 1).toString).map .setEnabled
-  else none
-
-def fanRun (s : St) (i : Nat) : List Op → St × List Nat
-  | [] => (s, [])
-  | op :: r =>
-    match step s op with
-    | .ok s' => fanRun s' (i + 1) r
-    | .error _ => let (s2, es) := fanRun s (i + 1) r; (s2, i :: es)
-
 def dotJoin (l : List Nat) : String := ".".intercalate (l.map toString)
 
+/-- a parsed driver event -/
+inductive DEv where
+  | ev (e : Ev)
+  | wire (payload : Bytes)       -- replaced by `ev (.arrive op)` once all payloads are decoded
+  | drain
+  | stopNow                      -- `stream_stop()` recorded in a trace: the iterations it let happen are explicit `I` events
+  deriving Repr
+
+def frameArg (s : String) : Option Op :=
+  match s.splitOn ":" with
+  | [fl, ss] => do
+    let fl ← fl.toNat?
+    let l ← if ss = "" then some [] else (ss.splitOn ",").mapM smpArg
+    pure (.frame fl l)
+  | _ => none
+
+def devArg (s : String) : Option DEv :=
+  let rest := (s.drop 1).toString
+  if s = "x" then some (.ev (.arrive .badFrame))
+  else if s = "i" then some .drain
+  else if s = "I" then some (.ev .iter)
+  else if s = "T" then some .stopNow
+  else if s = "S" then some (.ev .start)
+  else if s = "P" then some (.ev .stop)
+  else if s.startsWith "f" then (frameArg rest).map fun op => .ev (.arrive op)
+  else if s.startsWith "w" then (hexArg rest).map .wire
+  else if s.startsWith "s" then rest.toNat?.map fun c => .ev (.sub c)
+  else if s.startsWith "n" then rest.toNat?.map fun k => .ev (.subNeg k)
+  else if s.startsWith "u" then rest.toNat?.map fun q => .ev (.unsub q)
+  else if s.startsWith "e" then (bitsArg rest).map fun v => .ev (.setEnabled v)
+  else none
+
+def devsArg (s : String) : Option (List DEv) :=
+  if s = "-" then some [] else (s.splitOn ";").mapM devArg
+
+/-- does this application call raise? -/
+def callFails (s : Sys) (e : Ev) : Bool :=
+  match e with
+  | .sub _ | .subNeg _ | .unsub _ | .setEnabled _ =>
+    match evOp s e with
+    | some op => (match step s.fan op with | .ok _ => false | .error _ => true)
+    | none => false
+  | _ => false
+
+/-- run the events under the harness schedule; returns the final state and the indices of raising calls -/
+def sysDrive (s : Sys) (parked : Bool) (i : Nat) : List DEv → Sys × List Nat
+  | [] => (s, [])
+  | .drain :: r => sysDrive (sysRun s (List.replicate s.q.length .iter)) true (i + 1) r
+  | .wire _ :: r => sysDrive s parked (i + 1) r
+  | .stopNow :: r => sysDrive (sysStep s .stop) false (i + 1) r
+  | .ev e :: r =>
+    match e with
+    | .stop =>
+      let s1 := if parked && s.alive then sysStep s .iter else s
+      sysDrive (sysStep s1 .stop) false (i + 1) r
+    | .start => sysDrive (sysStep s .start) (if s.started then parked else false) (i + 1) r
+    | _ =>
+      let (s2, es) := sysDrive (sysStep s e) parked (i + 1) r
+      (s2, if callFails s e then i :: es else es)
+
+def sysOut (s : Sys) (errs : List Nat) (grp : List Nat → String) (sep : String) : String :=
+  let qs := s.fan.queues.map fun (q, gs) => s!"q{q}=" ++ sep.intercalate (gs.map grp)
+  "ok " ++ " ".intercalate qs ++ s!" ovf={s.fan.ovf} subs=" ++ ",".intercalate (s.fan.subs.map dotJoin) ++
+    s!" dead={boolStr (s.started && s.fan.dead)} started={boolStr s.started} qlen={s.q.length} errs=" ++ dotJoin errs
+
+/-- replace the `wire` events by the arrival of the decoded op (ops are in arrival order) -/
+def substWire : List DEv → List Op → List DEv
+  | [], _ => []
+  | .wire _ :: r, op :: ops => .ev (.arrive op) :: substWire r ops
+  | .wire p :: r, [] => .wire p :: substWire r []
+  | e :: r, ops => e :: substWire r ops
+
+def itemStr (s : Stream.Sample) : String :=
+  s!"[{";".intercalate (s.data.map svalStr)}],[{";".intercalate (s.mdata.map toString)}]"
+
 def fanOp : List String → Option String
+  | ["sys", init, evs] => do
+    let en ← bitsArg init
+    let evs ← devsArg evs
+    let (s, errs) := sysDrive (Sys.init en) false 0 evs
+    pure (sysOut s errs dotJoin "/")
+  | ["wire", layout, user, init, evs] => do
+    let l ← layoutArg layout; let u ← userArg user
+    let en ← bitsArg init
+    let evs ← devsArg evs
+    let payloads := evs.filterMap fun e => match e with | .wire p => some p | _ => none
+    let frs : List Serial.Frame := payloads.map fun p => ⟨Gen.Ids.idSTREAM, p⟩
+    let ops := opsOfFrames l u 0 frs
+    let all := samplesOfFrames l u frs
+    let (s, errs) := sysDrive (Sys.init en) false 0 (substWire evs ops)
+    let grp := fun (g : List Nat) => "|".intercalate (g.map fun t => match all[t]? with | some x => itemStr x | none => "?")
+    pure (sysOut s errs grp "/")
   | ["run", n, ops] => do
+    -- legacy: the stream is running from the start, every frame is processed when it arrives
     let n ← natArg n
-    let ops ← if ops = "-" then some [] else (ops.splitOn ";").mapM fanOpArg
-    let (s, errs) := fanRun (St.init n) 0 ops
-    let qs := s.queues.map fun (q, gs) => s!"q{q}=" ++ "/".intercalate (gs.map dotJoin)
-    pure ("ok " ++ " ".intercalate qs ++ s!" ovf={s.ovf} subs=" ++ ",".intercalate (s.subs.map dotJoin) ++
-      " errs=" ++ dotJoin errs)
+    let evs ← devsArg ops
+    let evs := evs.flatMap fun e => match e with
+      | .ev (.arrive f) => [.ev (.arrive f), .drain]
+      | e => [e]
+    let (s, _) := sysDrive (Sys.init (List.replicate n false)) false 0 (.ev .start :: evs)
+    pure (sysOut s [] dotJoin "/")
   | _ => none
 
 end Nxs.Driver
